@@ -143,6 +143,26 @@ theorem dedupTys_id (l : List Ty) (h : TokNodup l) : dedupTys l = l := by
   rw [dedupTys_eq_foldl]
   simpa using this
 
+/-- the clause as written: every type the builder holds is stated (through the first type with the same tokens) … -/
+theorem items_cover_types (w : WCB) (f : Ty → GToks) :
+    ∀ t ∈ w.types, ∃ u ∈ w.types, u.toks = t.toks ∧ f u.parenInWhere ∈ w.items f := by
+  intro t ht
+  obtain ⟨u, hu, he⟩ := dedupTys_complete w.types t ht
+  refine ⟨u, dedupTys_sound _ u hu, he, ?_⟩
+  unfold WCB.items
+  exact List.mem_append_left _ (List.mem_map.2 ⟨u, hu, rfl⟩)
+
+/-- … and nothing else is: an item of the clause is the bound of a held type or a held predicate -/
+theorem items_sound (w : WCB) (f : Ty → GToks) :
+    ∀ x ∈ w.items f, (∃ t ∈ w.types, x = f t.parenInWhere) ∨ (∃ p ∈ w.preds, x = U p.inWhere.toks) := by
+  intro x hx
+  unfold WCB.items at hx
+  rcases List.mem_append.1 hx with h | h
+  · obtain ⟨t, ht, rfl⟩ := List.mem_map.1 h
+    exact Or.inl ⟨t, dedupTys_sound _ t ht, rfl⟩
+  · obtain ⟨p, hp, rfl⟩ := List.mem_map.1 h
+    exact Or.inr ⟨p, hp, rfl⟩
+
 /-- non-vacuity: two fields of one function pointer type give one bound; different types are kept, in order -/
 example :
     (dedupTys [Ty.simple "T", .bareFn [.ref none false (Ty.simple "T")] none, Ty.simple "T",
